@@ -18,6 +18,8 @@ CONSTANTS World,      \* [specs, good, goods, bare, opt_host, opt_port, root, sl
           Dests,      \* upstream destinations [host, port, tp] offered to the server_connect hook
           Started,    \* TRUE: behaviours begin after the running hook
           Ops,        \* names of the environment actions of this instance
+          CloseOnFail,\* TRUE = the code since /repo 05259bb1c: listen() closes the servers already bound when a later
+                      \* bind raises; FALSE = the code before (finding F1: they stayed open) -- the monitor rejects it
           MaxOps, MaxGen
 VARIABLES optmode, optserver, psrun, order, objs, open, ext, nsid, eph, tasks, released, alone, dirty, nops, mon, obs
 vars == <<optmode, optserver, psrun, order, objs, open, ext, nsid, eph, tasks, released, alone, dirty, nops, mon, obs>>
@@ -132,22 +134,24 @@ TcpLoop(st, g, hosts, port, done) ==
        IF b.res = "ok" THEN TcpLoop(b.st, g, Tail(hosts), port, Append(done, b.sock))
        ELSE [st |-> CloseAll(b.st, done), ok |-> FALSE, socks |-> <<>>, res |-> b.res]
 TcpHosts(host) == IF host = "" THEN (IF World.nov6 THEN <<"0.0.0.0">> ELSE <<"0.0.0.0", "::">>) ELSE <<host>>
-\* AsyncioServerInstance.listen after the port-0 block: TCP server, then the UDP server(s); a failure of a later
-\* one leaves the earlier ones listening (the local list `servers` is dropped) -- as the code does
+\* AsyncioServerInstance.listen after the port-0 block: TCP server, then the UDP server(s); when a later one fails,
+\* `except BaseException: for s in servers: s.close()` closes the earlier ones (CloseOnFail; before the repair the
+\* local list `servers` was simply dropped and they kept listening)
 ListenAt(st, g, host, port, tp) ==
   LET t == IF tp \in {"tcp", "both"} THEN TcpLoop(st, g, TcpHosts(host), port, <<>>)
            ELSE [st |-> st, ok |-> TRUE, socks |-> <<>>, res |-> "ok"]
-      fail(s, exc, inuse) == [st |-> s, ok |-> FALSE, socks |-> <<>>, exc |-> exc, inuse |-> inuse] IN
+      fail(s, exc, inuse) == [st |-> s, ok |-> FALSE, socks |-> <<>>, exc |-> exc, inuse |-> inuse]
+      undo(s, bound) == IF CloseOnFail THEN CloseAll(s, bound) ELSE s IN
   IF ~t.ok THEN fail(t.st, IF t.res = "EACCES" THEN "PermissionError" ELSE "OSError", t.res = "EADDRINUSE")
   ELSE IF tp \notin {"udp", "both"} THEN [st |-> t.st, ok |-> TRUE, socks |-> t.socks, exc |-> "", inuse |-> FALSE]
   ELSE IF host = ""
        THEN LET u4 == Bind(t.st, g, "udp", "0.0.0.0", port) IN
-            IF u4.res # "ok" THEN fail(u4.st, "RuntimeError", FALSE)
+            IF u4.res # "ok" THEN fail(undo(u4.st, t.socks), "RuntimeError", FALSE)
             ELSE LET u6 == Bind(u4.st, g, "udp", "::", u4.sock.port) IN     \* failure tolerated: IPv4 only
                  [st |-> u6.st, ok |-> TRUE, exc |-> "", inuse |-> FALSE,
                   socks |-> t.socks \o <<u4.sock>> \o (IF u6.res = "ok" THEN <<u6.sock>> ELSE <<>>)]
        ELSE LET u == Bind(t.st, g, "udp", host, port) IN
-            IF u.res # "ok" THEN fail(u.st, "RuntimeError", FALSE)
+            IF u.res # "ok" THEN fail(undo(u.st, t.socks), "RuntimeError", FALSE)
             ELSE [st |-> u.st, ok |-> TRUE, socks |-> Append(t.socks, u.sock), exc |-> "", inuse |-> FALSE]
 \* listen(): port 0 first tries one port for everything (get_free_port), then falls back to what asyncio does
 Listen(st, g, host, port, tp) ==
